@@ -21,7 +21,9 @@ type region struct {
 	used      int
 	frozen    bool
 	revisions int
-	heapOut   int // allocations that did not fit and went to the Go heap
+	revOf     []int // indices of (original, revision, probe) when a revision exists
+	focus     []int // when set, geometry arguments are drawn from these operands only
+	heapOut   int   // allocations that did not fit and went to the Go heap
 }
 
 func newRegion(nfloats int) (*region, error) {
@@ -97,6 +99,8 @@ type pool struct {
 	pubT      []uint64
 	frozen    bool
 	revisions int
+	revOf     []int // indices of (original, revision, probe) when a revision exists
+	focus     []int // when set, geometry arguments are drawn from these operands only
 	general   bool
 }
 
@@ -158,8 +162,9 @@ func buildPool(m *vs.Stream, freeze bool) (*pool, error) {
 	// segments, one interior vertex moved (two versions of a track or parcel)
 	if m.Intn(3, "pool/revision") == 2 {
 		for _, g := range p.geoms {
-			if r, ok := revise(m, p, g); ok {
-				p.geoms = append(p.geoms, r)
+			if r, probe, ok := revise(m, p, g); ok {
+				p.revOf = []int{indexOf(p.geoms, g), len(p.geoms), len(p.geoms) + 1}
+				p.geoms = append(p.geoms, r, probe)
 				p.revisions++
 				break
 			}
@@ -307,7 +312,24 @@ func clipS(s string, n int) string {
 
 // revise returns a valid geometry that differs from g in exactly one interior
 // vertex of its (first) line or exterior ring.
-func revise(m *vs.Stream, p *pool, g geom.Geometry) (geom.Geometry, bool) {
+func indexOf(gs []geom.Geometry, g geom.Geometry) int {
+	for i := range gs {
+		if gs[i] == g {
+			return i
+		}
+	}
+	return 0
+}
+
+// pickGeom draws a geometry operand index (from the focus set, if any).
+func (p *pool) pickGeom(s *vs.Stream, label string) int {
+	if len(p.focus) > 0 {
+		return p.focus[s.Intn(len(p.focus), label)]
+	}
+	return s.Intn(len(p.geoms), label)
+}
+
+func revise(m *vs.Stream, p *pool, g geom.Geometry) (geom.Geometry, geom.Geometry, bool) {
 	var seq geom.Sequence
 	switch {
 	case g.IsLineString():
@@ -315,11 +337,11 @@ func revise(m *vs.Stream, p *pool, g geom.Geometry) (geom.Geometry, bool) {
 	case g.IsPolygon() && !g.IsEmpty():
 		seq = g.MustAsPolygon().ExteriorRing().Coordinates()
 	default:
-		return geom.Geometry{}, false
+		return geom.Geometry{}, geom.Geometry{}, false
 	}
 	n := seq.Length()
 	if n < 6 {
-		return geom.Geometry{}, false
+		return geom.Geometry{}, geom.Geometry{}, false
 	}
 	d := seq.CoordinatesType().Dimension()
 	fs := p.reg.alloc(n * d)
@@ -349,7 +371,22 @@ func revise(m *vs.Stream, p *pool, g geom.Geometry) (geom.Geometry, bool) {
 		r = geom.NewPolygon(rings).AsGeometry()
 	}
 	if r.Validate() != nil {
-		return geom.Geometry{}, false
+		return geom.Geometry{}, geom.Geometry{}, false
 	}
-	return r, true
+	// probe: a zigzag with more segments than the revision, confined to half
+	// a lattice unit around the moved vertex and starting exactly there, so
+	// that it meets the revision where (and only near where) it differs from
+	// the original
+	ms := 2*n + 2
+	pf := p.reg.alloc(2 * (ms + 1))
+	h := p.lat.Unit / 2
+	for j := 0; j <= ms; j++ {
+		x := fs[k*d]
+		if j%2 == 1 {
+			x += 0.8 * h
+		}
+		pf[2*j], pf[2*j+1] = x, fs[k*d+1]+h*float64(j)/float64(ms)
+	}
+	probe := geom.NewLineString(geom.NewSequence(pf, geom.DimXY)).AsGeometry()
+	return r, probe, true
 }
